@@ -79,6 +79,16 @@ impl GenerationCache {
         Ok(())
     }
 
+    /// Remove the cache file before the output files are rewritten, so that a run that fails or
+    /// is interrupted part-way never leaves a cache record vouching for half-written output.
+    pub fn invalidate<P: AsRef<Path>>(output_dir: P) -> Result<(), CacheError> {
+        match fs::remove_file(Self::cache_path(output_dir)) {
+            Ok(()) => Ok(()),
+            Err(e) if e.kind() == std::io::ErrorKind::NotFound => Ok(()),
+            Err(e) => Err(e.into()),
+        }
+    }
+
     /// Check if generation is needed by comparing with previous cache
     pub fn needs_regeneration<P: AsRef<Path>>(
         output_dir: P,
